@@ -132,7 +132,12 @@ func c09http(c *run.Ctx) {
 			} else {
 				scopeLists = append(scopeLists, []string{"not-granted-scope"})
 			}
-			for ci, cl := range callers {
+			tokCallers := callers
+			if t.Kind == "access" {
+				// the inspected token itself as bearer credential: never answered
+				tokCallers = append(append([]caller(nil), callers...), caller{"bearer-is-the-inspected-token", world.Auth{}, t.Value, 0})
+			}
+			for ci, cl := range tokCallers {
 				// full cross product for a few tokens, a diagonal for the rest
 				if ti > 3 && (ci+ti)%3 != 0 && cl.ok == 1 {
 					continue
